@@ -393,7 +393,7 @@ class BaseInput:
     def _handle_transforms(self, mapper):
         transformers, need_categorical = mapper.get_transformers()
         if transformers:
-            all_columns = self._dataframe
+            all_columns = self._dataframe.copy()  # the categorical round trip must not alter the caller's frame
             if need_categorical:
                 all_columns[need_categorical] = all_columns[need_categorical].astype('category')
 
